@@ -16,6 +16,20 @@ STRENGTH = {
  "C18-b": "long fill/drain oscillations (150-400 rounds) to large peaks",
  "C01-d": "`try_lock` on the loom stand-in for the spin lock (hook), `c01_spurious_then_real`",
  "C03-c": "release snapshot compared at the end of every loom schedule",
+ "C08-c": "groups with more than 32 slots in use that grow after polls; the tracking allocator never reallocates in place",
+ "C09-c": "adapters with limits 33 and 70 (above the first group size and the per-poll budget)",
+ "C11-c": "`MergeUnbounded` built through `FromIterator` (`MuIter`), incl. from an empty iterator",
+ "C12-c": "task-waker changes (`poll(new task waker)`) in the C12 alphabets (later in all alphabets)",
+ "C13-c": "populations of exactly 61 and 123 self-waking children (multiples of the per-poll budget)",
+ "C06-c": "a zero-sized future type with a destructor (`FubZ`, `FuZ`, `JaZ`), drops counted",
+ "C07-c": "from_iter-style constructors are also fed an iterator with an inexact size hint (`filter`)",
+ "C16-c": "limit oracles evaluated at the very moment upstream hands out an item (C16 and C09)",
+ "C18-c": "allocation words that fill ordered queues through `push_front` (re-basing in every round)",
+ "C05-c": "merge sources that wake themselves in the poll in which they return `None`",
+ "C04-e": "`extend` is exercised, with an inexact-size-hint iterator",
+ "C03-e": "children that panic in `poll` (`PanicOnce`): the unwinding goes through the crate and is caught by the caller",
+ "C05-e": "count-based promptness for zero-sized children (completed <= drops observed at poll return)",
+ "C06-e": "join_all/try_join_all with 60-123 inputs finishing in one poll, dropped at every point",
 }
 for d in sorted(glob.glob("/verif/seeded/C*")):
     mp = os.path.join(d, "meta.json")
